@@ -435,6 +435,56 @@ def graph_instances(rng, count, maxe, signed):
     return out
 
 
+def glued_graph(rng, pieces):
+    """graph obtained by gluing 3-connected graphs, cycles and bonds along edges (the glued edge is kept or dropped): its
+    t-decomposition has several rigid, series and parallel members"""
+    def piece():
+        k = rng.random()
+        if k < 0.55:
+            return named_graph(rng)
+        if k < 0.7:
+            n = 4; return n, [(i, j) for i in range(n) for j in range(i + 1, n)]          # K4
+        if k < 0.85:
+            n = rng.randint(3, 6); return n, [(i, (i + 1) % n) for i in range(n)]           # cycle
+        return 2, [(0, 1)] * rng.randint(2, 4)                                              # bond
+    nn, edges = piece()
+    edges = list(edges)
+    for _ in range(pieces - 1):
+        n2, e2 = piece()
+        if not edges or not e2:
+            continue
+        a = rng.randrange(len(edges)); b = rng.randrange(len(e2))
+        (u1, v1), (u2, v2) = edges[a], e2[b]
+        if rng.random() < 0.5: u2, v2 = v2, u2
+        ren = {}
+        nxt = nn
+        for v in range(n2):
+            if v == u2: ren[v] = u1
+            elif v == v2: ren[v] = v1
+            else: ren[v] = nxt; nxt += 1
+        nn = nxt
+        new = [(ren[x], ren[y]) for i, (x, y) in enumerate(e2) if i != b]
+        if rng.random() < 0.5:
+            edges.pop(a)
+        edges += new
+    return nn, edges
+
+
+def glued_cycle_matrix(rng, pieces, signed=False):
+    while True:
+        nn, edges = glued_graph(rng, pieces)
+        if not edges:
+            continue
+        forest = spanning_forest(rng, nn, edges)
+        fs = set(forest)
+        cof = [i for i in range(len(edges)) if i not in fs]
+        if not forest or not cof:
+            continue
+        rng.shuffle(forest); rng.shuffle(cof)
+        rev = [rng.random() < 0.5 for _ in edges] if signed else None
+        return len(forest), len(cof), list(cycle_matrix(nn, edges, forest, cof, signed, rev))
+
+
 @check("C05")
 def c05(run):
     quick = run.tier == "quick"
@@ -464,7 +514,23 @@ def c05(run):
         m, n = rng.randint(1, 4), rng.randint(1, 4)
         more.append("graphic %d 1 1 %s" % (rng.randint(0, 1), mat_tokens(m, n, rand_mat(rng, m, n, (-1, 1, 2), 0.6))))
     run.batch("random+graph-instances", more, "asan")
-    return dict(rule="exhaustive: every 0/1 matrix up to 4x4 (thorough 4x5 and 5x<=4) through CMRgraphicTestMatrix and CMRgraphicTestTranspose with "
+    glued = []
+    for _ in range(15000 if quick else 200000):
+        m, n, e = glued_cycle_matrix(rng, rng.choice((1, 2, 2, 3)))
+        if rng.random() < 0.35:
+            k = rng.randrange(m * n); e[k] = 1 - e[k]          # mostly no longer graphic; a 'yes' is decided by its certificate at any size
+        if rng.random() < 0.5:
+            glued.append("graphic 0 1 0 %s" % mat_tokens(m, n, e))
+        else:
+            glued.append("graphic 1 1 0 %s" % mat_tokens(n, m, [e[i * n + j] for j in range(n) for i in range(m)]))
+    for _ in range(20000 if quick else 200000):
+        m, n = rng.choice([(5, 4), (5, 5), (4, 5), (5, 6)])
+        e = rand_mat(rng, m, n, (1,), rng.choice((0.4, 0.5, 0.6)))
+        glued.append("graphic %d 1 0 %s" % (0, mat_tokens(m, n, e)))
+    run.batch("glued-3-connected-graphs", glued, "plain")
+    return dict(rule="cycle matrices of graphs glued from K5, K6, K3,3, Petersen, Wagner, random cubic and dense graphs, K4s, cycles and bonds "
+                "(several rigid members in the t-decomposition), a third with one corrupted entry; 5-row random matrices (oracle exact); "
+                "exhaustive: every 0/1 matrix up to 4x4 (thorough 4x5 and 5x<=4) through CMRgraphicTestMatrix and CMRgraphicTestTranspose with "
                 "the graph requested: every yes is decided by multiplying out the returned graph/forest/coforest (checkGraphCert), every no by "
                 "the brute-force tree search (rows<=5); seeded 5-row matrices; fundamental-cycle matrices of random multigraphs (loops, "
                 "parallel edges, several components, up to 120/400 edges) under random line orders; non-binary inputs. Non-trivial = judged "
@@ -506,7 +572,23 @@ def c06(run):
         m, n = rng.randint(1, 4), rng.randint(1, 4)
         more.append("network %d 1 1 %s" % (rng.randint(0, 1), mat_tokens(m, n, rand_mat(rng, m, n, (-2, 1, 2), 0.6))))
     run.batch("signings+digraph-instances", more, "asan")
-    return dict(rule="exhaustive: every {-1,0,1} matrix up to 3x3 (thorough 3x4, 4x<=3) through CMRnetworkTestMatrix and CMRnetworkTestTranspose "
+    glued = []
+    for _ in range(12000 if quick else 150000):
+        m, n, e = glued_cycle_matrix(rng, rng.choice((1, 2, 2, 3)), signed=True)
+        x = rng.random()
+        if x < 0.25:
+            nz = [k for k in range(m * n) if e[k]]
+            if nz:
+                k = rng.choice(nz); e[k] = -e[k]                  # a wrong sign: support still graphic
+        elif x < 0.4:
+            k = rng.randrange(m * n); e[k] = rng.choice([v for v in (-1, 0, 1) if v != e[k]])
+        if rng.random() < 0.5:
+            glued.append("network 0 1 %d %s" % (rng.randint(0, 1), mat_tokens(m, n, e)))
+        else:
+            glued.append("network 1 1 %d %s" % (rng.randint(0, 1), mat_tokens(n, m, [e[i * n + j] for j in range(n) for i in range(m)])))
+    run.batch("glued-3-connected-digraphs", glued, "plain")
+    return dict(rule="network matrices of digraphs glued from 3-connected graphs, K4s, cycles and bonds with wrong signs / corrupted entries; "
+                "exhaustive: every {-1,0,1} matrix up to 3x3 (thorough 3x4, 4x<=3) through CMRnetworkTestMatrix and CMRnetworkTestTranspose "
                 "with digraph, reversal flags and violator requested: yes is decided by multiplying out the certificate including signs, no by "
                 "the brute-force tree+orientation search and the violator by the same oracle, the support flag by the graphicness search; "
                 "random signings of 0/1 supports, network matrices of random digraphs with random arc reversals and single sign "
@@ -884,6 +966,16 @@ def c20(run):
         nr, nc = rng.randint(0, m), rng.randint(0, n)
         rs = sorted(rng.sample(range(m), nr)); cs = sorted(rng.sample(range(n), nc))
         more.append(" ".join(("printsub %d %d %d %d %s %s" % (m, n, nr, nc, " ".join(map(str, rs)), " ".join(map(str, cs)))).split()))
+    # double matrices: values are multiples of 1/64 around the integers, tolerance a multiple of 1/64
+    for _ in range(3000 if quick else 40000):
+        m, n = rng.randint(0, 6), rng.randint(0, 6)
+        eps = rng.choice((0, 1, 4, 8, 31, 32))
+        def val():
+            base = rng.choice((0, 0, 64, 64, -64, 128, -128, 64 * 127, 64 * 128, -64 * 129, 640))
+            return base + rng.choice((0, 0, 0, 1, -1, eps, -eps, eps + 1, -eps - 1, 32, -32, 33))
+        e = [val() if rng.random() < 0.6 else 0 for _ in range(m * n)]
+        what = rng.choice(("transpose", "copy", "support", "ssupport", "ssupport", "tochr", "tochr", "isbinary", "isternary"))
+        more.append("mat %s d %d %s" % (what, eps, mat_tokens(m, n, e)))
     more += text_streams(rng, 6000 if quick else 100000)
     run.batch("roundtrip+malformed-text", more, "asan")
     # (c) all byte strings over a small alphabet up to length L for the chr dense and sparse readers
